@@ -121,6 +121,7 @@ class BinaryAUPRC(Metric[torch.Tensor]):
         target = target.to(self.device)
 
         _binary_auprc_update_input_check(input, target, self.num_tasks)
+        input, target = input.detach(), target.detach()
         self.inputs.append(input)
         self.targets.append(target)
         return self
@@ -263,6 +264,7 @@ class MulticlassAUPRC(Metric[torch.Tensor]):
         target = target.to(self.device)
 
         _multiclass_auprc_update_input_check(input, target, self.num_classes)
+        input, target = input.detach(), target.detach()
         self.inputs.append(input)
         self.targets.append(target)
         return self
@@ -407,6 +409,7 @@ class MultilabelAUPRC(Metric[torch.Tensor]):
         target = target.to(self.device)
 
         _multilabel_auprc_update_input_check(input, target, self.num_labels)
+        input, target = input.detach(), target.detach()
         self.inputs.append(input)
         self.targets.append(target)
         return self
